@@ -49,6 +49,8 @@ fn parse_file(file: &mut SliceFile, ast: &mut Ast, diagnostics: &mut Diagnostics
             // TODO improve this message, see: #348
             message: "module declaration is required".to_owned(),
         })
+        // Point at the first definition, so that users can tell which file (and which definition) is meant.
+        .set_span(definitions[0].borrow().span())
         .push_into(diagnostics);
 
         // Definitions without a module are in the global scope, where they could hide the primitive types from the
